@@ -155,6 +155,13 @@ def family():
               [{'t': 'DeleteField', 'model': 'Category', 'field': 'twin'}],
               [{'t': 'DeleteModel', 'model': 'Item'}]):
         out.append((spec_l, q))
+    # the destination label of a RenameAppLabel already has an entry without models (an installed app that has no
+    # models, or one whose last model was deleted)
+    spec_e = copy.deepcopy(spec)
+    spec_e['apps'].append({'id': 'lib', 'models': []})
+    out.append((spec_e, [{'t': 'RenameAppLabel', 'old': 'vapp', 'new': 'lib', 'legacy': None, 'models': None}]))
+    out.append((spec_e, [rm('Category', 'Section'),
+                         {'t': 'RenameAppLabel', 'old': 'vapp', 'new': 'lib', 'legacy': None, 'models': None}]))
     # an app installed under a custom label goes back to the label it used to have (its own legacy label)
     spec_own = copy.deepcopy(spec)
     spec_own['apps'][0]['legacy'] = 'core'
